@@ -64,6 +64,11 @@ def signed_leaves(e, sign=1, out=None, depth=0, follow=True, stop=None):
             for a in (e.args[:1] if name in ('round',) else e.args):
                 signed_leaves(a, sign, out, depth + 1, follow, stop)
             return out
+        if isinstance(f, ast.Attribute) and name in ('maximum', 'minimum', 'fmax', 'fmin', 'clip') and e.args:
+            # numpy.maximum(x, 0), numpy.clip(x, 0, None): monotone in x, the bounds are constants
+            for a in e.args[:2] if name != 'clip' else e.args[:1]:
+                signed_leaves(a, sign, out, depth + 1, follow, stop)
+            return out
         if isinstance(f, ast.Name) and name == 'abs' and e.args:
             for s, l in signed_leaves(e.args[0], 1, [], depth + 1, follow, stop):
                 out.append((0, l))
